@@ -52,10 +52,13 @@ def jobs():
                  loops={"znx_negate_i64_ref": {"count": 1, "loops": [ln]}},
                  cbmc_flags=NOOVF, functions=["znx_negate_i64_ref"],
                  replay={"driver": "znx_elem", "fn": "znx_negate_i64_ref", "op": "neg"}))
-    J.append(Job(name="coeffs.znx_copy_i64_ref", props=["C08", "C13", "C11", "C18", "C15"], shape="S1",
-                 sources=SRC, harness=H, entry="h_znx_copy_i64_ref",
-                 enforce=[("znx_copy_i64_ref", "znx_copy__c")], functions=["znx_copy_i64_ref"],
-                 replay={"driver": "znx_elem", "fn": "znx_copy_i64_ref", "op": "copy"}))
+    for al in (0, 1):
+        J.append(Job(name="coeffs.znx_copy_i64_ref.alias%d" % al, props=["C08", "C13", "C11", "C18", "C15"], shape="S1",
+                     sources=SRC, harness=H, entry="h_znx_copy_i64_ref", defines={"COPY_ALIAS": al},
+                     enforce=[("znx_copy_i64_ref", "znx_copy__c")], functions=["znx_copy_i64_ref"],
+                     waive=[r"memcpy src/dst overlap"] if al else [],
+                     bound_note="a==res exactly" if al else "a, res separate",
+                     replay={"driver": "znx_elem", "fn": "znx_copy_i64_ref", "op": "copy"}))
     J.append(Job(name="coeffs.znx_zero_i64_ref", props=["C08", "C11", "C15"], shape="S1",
                  sources=SRC, harness=H, entry="h_znx_zero_i64_ref",
                  enforce=[("znx_zero_i64_ref", "znx_zero__c")], functions=["znx_zero_i64_ref"],
